@@ -472,8 +472,57 @@ def check_C20(tier, seed):
 
 
 def race_harness(res, tier, seed, known):
-    """Build and run harness/race under the race detector; returns a summary dict. Filled in by race support below."""
-    return {}
+    """Build harness/race with the race detector, run the concurrent API hammer in real time, parse the reports."""
+    import glob as _glob
+    import shutil as _shutil
+    with vlib.Lock():
+        ok, log, exe = vlib.go_build("race", "race.test", race=True, test=True)
+        ok2, log2, pexe = vlib.go_build("race/cmd/parse", "raceparse")
+    if not (ok and ok2):
+        res.tie_broken.append("race harness does not build against /repo: " + (log + log2)[-800:])
+        return {}
+    secs = 6 if tier == "quick" else 90
+    d = os.path.join(BUILD, "race.%d" % os.getpid())
+    os.makedirs(d, exist_ok=True)
+    out = os.path.join(d, "race.json")
+    env = dict(os.environ)
+    env.update({"RACE_OUT": out, "RACE_SECS": str(secs), "RACE_SEED": str(seed), "RACE_PAR": "12",
+                "GORACE": "log_path=%s halt_on_error=0" % os.path.join(d, "log")})
+    try:
+        vlib.run([exe, "-test.run", "TestRace$", "-test.count=1"], env=env, timeout=secs + 120)
+        vlib.run([pexe, os.path.join(d, "log"), out, out + ".meta"], timeout=120)
+        try:
+            rep = json.load(open(out))
+        except Exception as e:
+            res.tie_broken.append("race harness produced no result: %s" % e)
+            return {}
+        keys, samples, nknown = [], [], 0
+        for r in rep.get("reports", []):
+            key = r.get("key", "?")
+            keys.append(key)
+            funcs = [f.split(").")[-1] for f in key.split("|")]
+            sig = "C20/dynamic/" + key
+            # the racing write sites of the known finding: Start / StopWithContext (ctx, WaitGroup reuse)
+            if ("Start" in funcs or "StopWithContext" in funcs) and "C20/dynamic/with-Start-or-StopWithContext" in known:
+                nknown += 1
+                continue
+            if sig in known:
+                nknown += 1
+                continue
+            if key in ("harness", "external"):
+                continue
+            res.violations.append(("the race detector reports a data race between %s" % key.replace("|", " and "),
+                                   {"property": "C20", "kind": "race-detector-report", "key": key, "frames": r.get("frames"),
+                                    "sites": r.get("sites"), "report": r.get("raw", "")[:3000], "signature": sig,
+                                    "replay": "bin/check C20 --replay <this file> (re-runs the hammer with the same seed)"}))
+            samples.append({"race_report_key": key, "frames": r.get("frames")})
+        if nknown:
+            res.known.append("C20/dynamic/with-Start-or-StopWithContext %d race-detector reports whose racing write is in Start / StopWithContext "
+                             "(the election context field D15, and Start's WaitGroup.Add concurrent with a stop's Wait)" % nknown)
+        return {"seconds": rep.get("seconds", secs), "scenarios": rep.get("scenarios", 0), "api_calls": rep.get("api_calls", 0),
+                "crashes": len(rep.get("crashes", []) or []), "keys": sorted(set(keys)), "samples": samples}
+    finally:
+        _shutil.rmtree(d, ignore_errors=True)
 
 
 CHECKS["C20"] = check_C20
